@@ -131,7 +131,8 @@ function strLiteral(v, st) {
 function ws(st, must = false) {
   const rng = st.rng
   if (!rng || !st.spacing) return must ? ' ' : ''
-  const r = rng.int(12)
+  const r = rng.int(13)
+  if (r === 12) return st.noComments || st.noNewline ? ' ' : rng.pick(['/* 漢\n😀 */', ' /*\n\n😀😀*/ ', '/*😀*/', '\r\n'])
   if (r < 7) return must ? ' ' : ''
   if (r < 9) return ' '
   if (r === 9) return st.noComments ? ' ' : ' /* c */ '
